@@ -1,6 +1,6 @@
 PROP = dict(
     props="Props/C10.v",
-    tie={"modules": ["GoSem", "Abi", "VmReceive", "Emb", "LockEnv", "Pillar", "Locks", "TieC09", "TieC10"],
+    tie={"modules": ["GoSem", "Abi", "VmReceive", "Emb", "LockEnv", "Pillar", "Locks", "Liquidity", "Bridge", "TieC09", "TieC10"],
          "fns": {"vm_receive": ("vm_receive_run", "vm_receive_eqb", "(bytes * Z * bytes * bool * list (bytes * Z * bytes)) * (Z * list (bytes * Z * bytes))"),
                  "emb_plasma": ("emb_plasma_run", "emb_plasma_eqb", "emb_in pstore * emb_out pstore"),
                  "emb_stake": ("emb_stake_run", "emb_stake_eqb", "emb_in sstore * emb_out sstore"),
@@ -8,9 +8,11 @@ PROP = dict(
                  "emb_token": ("emb_token_run", "emb_token_eqb", "emb_in tstore * emb_out tstore"),
                  "emb_common": ("emb_common_run", "emb_common_eqb", "emb_in cstore * emb_out cstore"),
                  "emb_sentinel": ("emb_sentinel_run", "emb_sentinel_eqb", "emb_in2 nstore * emb_out nstore"),
-                 "emb_pillar": ("emb_pillar_run", "emb_pillar_eqb", "emb_in2 lstore * emb_out lstore")}},
+                 "emb_pillar": ("emb_pillar_run", "emb_pillar_eqb", "emb_in2 lstore * emb_out lstore"),
+                 "emb_liquidity": ("emb_liquidity_run", "emb_liquidity_eqb", "emb_in qstore * emb_outd qstore"),
+                 "emb_bridge": ("emb_bridge_run", "emb_bridge_eqb", "emb_in bstore * emb_outd bstore")}},
     suites=[{"bin": "c10", "name": "locks", "n": {"quick": 16, "thorough": 1500}, "timeout": 3000},
-            {"bin": "c10", "name": "bridgeliq", "n": {"quick": 6, "thorough": 400}, "timeout": 3000},
+            {"bin": "c10", "name": "bridgeliq", "n": {"quick": 5, "thorough": 400}, "timeout": 3000},
             {"bin": "c10", "name": "liqtreasury", "n": {"quick": 3, "thorough": 30}, "timeout": 3000}],
     rule="histories on a real node (htlc spork regime, lock windows shortened as in the repository's own tests): stake/cancel, fuse/cancel-fuse (incl. genesis fusions), htlc create/unlock/reclaim/deny/allow, QSR deposit/withdraw, sentinel register/revoke, pillar register/revoke, each release attempted by the owner and by others, before and after the lock, repeatedly, with right and wrong preimages, plus random (mostly failing) calls to the same contracts; time advances with momentums; "
          "a case is one receive of a modelled method: (contract tables, balances, frontier time/height, constants, send) -> (status/error, descendants, tables, balances); distinct by (function, input)",
